@@ -71,11 +71,12 @@ Qed.
 Section Lib.
 Variable P : id -> Prop.
 Variable PM : N -> Prop.
+Variable PF : N -> Prop.
 Notation GoodN := (GoodN P PM).
 Notation GoodM := (GoodM P).
-Notation Sealed := (Sealed P PM).
-Notation irpq := (irpq P PM).
-Notation irp := (irp P PM).
+Notation Sealed := (Sealed P PM PF).
+Notation irpq := (irpq P PM PF).
+Notation irp := (irp P PM PF).
 Notation OutI := (OutI P).
 Notation OutC := (OutC P).
 
